@@ -245,6 +245,67 @@ def _pair(ci: int, cj: int, fault_first: int) -> bool:
     return got == ref
 
 
+# ---- twin models: same names and scopes, different content -----------------------------------------------
+_TWIN_CHILD = '''
+import sys, json, hashlib
+sys.path.insert(0, %(verif)r)
+from props import c12
+print(json.dumps(c12._twin_build(int(sys.argv[1]), int(sys.argv[2]), int(sys.argv[3]))))
+'''
+_TWIN_REF = {}
+
+
+def _twin_cases(ti: int):
+    """(base (case, ports_cfg) list, twin model, twin FileContents)"""
+    base_label, twin = fam.TWINS[ti]
+    base = [(c, pc) for c, pc in fam.VALID if fam.MODELS_ALL[c.model_i].label == base_label]
+    return base, twin, fam.TWIN_FCS[twin.label]
+
+
+def _twin_build(ti: int, bi: int, origin_i: int):
+    """Build the twin model with the bi-th base configuration (configuration objects are rebuilt for
+    the twin's own ports); returns digests."""
+    base, twin, fc = _twin_cases(ti)
+    case, _pc = base[bi % len(base)]
+    cfgs = dict(fam.port_cfgs(twin))
+    pc = cfgs.get(case.cfg_label) or list(cfgs.values())[0]
+    cfg = fam.make_configuration(case, pc, fc=fc)
+    return _digest(Builder().build(cfg).files)
+
+
+def _twin_reference(ti: int, bi: int, oi: int):
+    import json
+    import os
+    import subprocess
+    key = (ti, bi, oi)
+    if key not in _TWIN_REF:
+        verif = os.path.dirname(os.path.dirname(os.path.abspath(__file__)))
+        proc = subprocess.run([sys.executable, '-c', _TWIN_CHILD % {'verif': verif}, str(ti), str(bi), str(oi)],
+                              capture_output=True, text=True, timeout=300, check=False,
+                              env=dict(os.environ, PYTHONPATH=verif))
+        _TWIN_REF[key] = json.loads(proc.stdout.strip().splitlines()[-1])
+    return _TWIN_REF[key]
+
+
+def _twin_case(ti: int, bi: int, first: int) -> bool:
+    """Build a base-model case (valid, or failing with a fault) and then the twin in the same process:
+    the twin's files equal those of a fresh interpreter that only ever built the twin."""
+    base, _twin, _fc = _twin_cases(ti)
+    case, pc = base[bi % len(base)]
+    thunk = (lambda: fam.make_configuration(case, pc)) if first < 0 else c13.build_fault(case, pc, first)
+    if thunk is not None:
+        try:
+            Builder().build(thunk())
+        except Exception:  # pylint: disable=broad-except
+            pass
+    return _twin_build(ti, bi, 0) == _twin_reference(ti, bi, 0)
+
+
+def h_twins(ti: int, bi: int, ff: int) -> bool:
+    """Twin models: the earlier build of a same-named model must not leak into the later one."""
+    return run_native(_twin_case, pick(range(len(fam.TWINS)), ti), pick(range(12), bi), pick([-1, 4, 17], ff))
+
+
 def h_step(ci: int, fault: int) -> bool:
     """The inductive step from every valid and every single-fault case."""
     return run_native(_step, pick(range(len(fam.VALID)), ci), pick(range(-1, c13.NFAULTS), fault + 1))
@@ -272,8 +333,13 @@ SPECS = [
       quick=dict(ct=280, pt=60), thorough=dict(ct=900, pt=60),
       shards=lambda p: [f'ci % 8 == {i}' for i in range(8)],
       bounds=f'{NV} valid cases x encapsulee name given as dotted str, "::" str, list of str'),
+    H('h_twins', 'deep', pre=['0 <= ti < %d' % len(fam.TWINS), '0 <= bi < 12', '0 <= ff < 3'],
+      quick=dict(ct=280, pt=120), thorough=dict(ct=900, pt=200),
+      shards=lambda p: [f'ti == {i}' for i in range(len(fam.TWINS))],
+      bounds='%d twin models (same names/scopes as a base model, other extern data / event signatures) built '
+             'after <= 12 configurations of the base model (valid or failing), vs a fresh interpreter' % len(fam.TWINS)),
     H('h_pair', 'deep', pre=[f'0 <= ci < {NV}', f'0 <= cj < {NV}', '0 <= ff < {F}', 'ci % {S} == 0'],
-      quick=dict(F=2, S=4, ct=280, pt=60), thorough=dict(F=5, S=1, ct=1700, pt=60),
+      quick=dict(F=2, S=6, ct=420, pt=60), thorough=dict(F=5, S=1, ct=3000, pt=60),
       shards=lambda p: [f'cj % 16 == {i}' for i in range(16)],
       bounds=f'ordered pairs (first build: every {{S}}-th valid case, valid or with one of {{F}}-1 faults; second '
              f'build: all {NV} valid cases) on one Builder instance vs a fresh build'),
